@@ -50,6 +50,32 @@ pub trait FieldAccessor {
     fn event_count(&self) -> usize;
 }
 
+/// Text of a cell as the in-memory path renders it (`Event::get_field_value`): string columns as
+/// they are, typed boolean / numeric columns through their `to_string()`. Used by the string
+/// conditions so that a literal written as text matches typed columns on flushed data too.
+fn cell_text<'a>(
+    accessor: &'a dyn FieldAccessor,
+    field: &str,
+    index: usize,
+) -> Option<std::borrow::Cow<'a, str>> {
+    use std::borrow::Cow;
+    if let Some(s) = accessor.get_str_at(field, index) {
+        return Some(Cow::Borrowed(s));
+    }
+    if let Some(b) = accessor.get_bool_at(field, index) {
+        return Some(Cow::Borrowed(if b { "true" } else { "false" }));
+    }
+    if let Some(u) = accessor.get_u64_at(field, index) {
+        return Some(Cow::Owned(u.to_string()));
+    }
+    if let Some(i) = accessor.get_i64_at(field, index) {
+        return Some(Cow::Owned(i.to_string()));
+    }
+    accessor
+        .get_f64_at(field, index)
+        .map(|f| Cow::Owned(f.to_string()))
+}
+
 /// A concrete accessor over a zone's columnar values that lazily builds
 /// per-column numeric caches to avoid repeated string parsing.
 pub struct PreparedAccessor<'a> {
@@ -528,18 +554,12 @@ impl Condition for StringCondition {
     }
 
     fn evaluate_at(&self, accessor: &dyn FieldAccessor, index: usize) -> bool {
-        // A boolean literal reaches us as the text `true` / `false`; a typed boolean column has
-        // no string view, so read the cell as a boolean and compare its text, as the in-memory
-        // path does.
-        let cell = accessor.get_str_at(&self.field, index).or_else(|| {
-            accessor
-                .get_bool_at(&self.field, index)
-                .map(|b| if b { "true" } else { "false" })
-        });
-        if let Some(val) = cell {
+        // A boolean literal reaches us as the text `true` / `false`, and a typed column has no
+        // string view: compare the cell's text, as the in-memory path does.
+        if let Some(val) = cell_text(accessor, &self.field, index) {
             match self.operation {
-                CompareOp::Eq => val == self.value,
-                CompareOp::Neq => val != self.value,
+                CompareOp::Eq => val.as_ref() == self.value,
+                CompareOp::Neq => val.as_ref() != self.value,
                 CompareOp::In => {
                     // IN operation should use InStringCondition, not StringCondition
                     unreachable!("IN operation should not be used with StringCondition")
@@ -694,8 +714,8 @@ impl Condition for InStringCondition {
     }
 
     fn evaluate_at(&self, accessor: &dyn FieldAccessor, index: usize) -> bool {
-        if let Some(val) = accessor.get_str_at(&self.field, index) {
-            self.values.contains(val)
+        if let Some(val) = cell_text(accessor, &self.field, index) {
+            self.values.contains(val.as_ref())
         } else {
             false
         }
